@@ -181,23 +181,30 @@ class _HebrewYearMonthDayCalculator(_YearMonthDayCalculator):
 
         if (self.compare(start, end)) <= 0:
             # Go backwards untill we've got a tight upper bound...
-            while self.compare(self._add_months(start, diff), end) > 0:
+            while self.__compare_after_adding(start, diff, end) > 0:
                 diff -= 1
             # Go forwards until we've overshot
-            while self.compare(self._add_months(start, diff), end) <= 0:
+            while self.__compare_after_adding(start, diff, end) <= 0:
                 diff += 1
             # Take account of the overshoot
             return diff - 1
         else:
             # Moving backwards, so we need to end up with a result greater than or equal to end...
             # Go forwards until we've got a tight upper bound...
-            while self.compare(self._add_months(start, diff), end) < 0:
+            while self.__compare_after_adding(start, diff, end) < 0:
                 diff += 1
             # Go backwards until we've overshot
-            while self.compare(self._add_months(start, diff), end) >= 0:
+            while self.__compare_after_adding(start, diff, end) >= 0:
                 diff -= 1
             # Take account of the overshoot
             return diff + 1
+
+    def __compare_after_adding(self, start: _YearMonthDay, months: int, end: _YearMonthDay) -> int:
+        """Compares start + months with end; a sum beyond the calendar lies beyond any end in that direction."""
+        try:
+            return self.compare(self._add_months(start, months), end)
+        except OverflowError:
+            return 1 if months > 0 else -1
 
     def compare(self, lhs: _YearMonthDay, rhs: _YearMonthDay) -> int:
         # The civil month numbering system allows a naive comparison.
